@@ -89,6 +89,7 @@ def check(ctx):
     # skip counts >= 2 and skip nodes that are not idempotent: outside the Coq model (its skip argument is off / on / inherited),
     # decided against the counting specification of the property itself
     skipn.check_skip_counts(ctx, 6 if ctx.tier == "quick" else 8)
+    skipn.check_never_failed(ctx, 6 if ctx.tier == "quick" else 8, "MIN = 0 repetition: greedy, at most MAX units, skips between units only")
     ctx.rule += ("; explicit skip counts: RepMin / RepMinMax / RepExact / Rep / RepOnce / Seq2 / Seq3 / repetition of sequences with SKIP in 0..3 "
                  "and the bounded skips \" \"? and \" \"{0,2}, x all strings over {a, b, blank} up to length %d, parse and check vs the counting "
                  "specification" % (6 if ctx.tier == "quick" else 8))
